@@ -37,7 +37,7 @@ pub async fn rename(
                 let text_edits = idents
                     .into_iter()
                     .map(|identifier| {
-                        Ident::from_identifier(&identifier, identifier.to_text_range(&doc.tokens))
+                        Ident::from_identifier(&identifier, ident_text_range(&identifier, &doc.tokens))
                     })
                     .map(|ident| TextEdit {
                         range: as_pos_range(&ident.to_range(), &doc.text),
@@ -86,7 +86,7 @@ pub async fn find(
                 let references = identifiers
                     .into_iter()
                     .map(|identifier| {
-                        Ident::from_identifier(&identifier, identifier.to_text_range(&doc.tokens))
+                        Ident::from_identifier(&identifier, ident_text_range(&identifier, &doc.tokens))
                     })
                     .filter(|i| i != ident)
                     .map(|i| Location {
@@ -99,6 +99,20 @@ pub async fn find(
         }
     }
     Ok(None)
+}
+
+/// The text range of an identifier occurrence is the range of its identifier token:
+/// the last token of the node's range, which may start with comments.
+fn ident_text_range(
+    identifier: &Identifier,
+    tokens: &[spl_frontend::tokens::Token],
+) -> std::ops::Range<usize> {
+    let range = identifier.to_range();
+    if range.is_empty() {
+        identifier.to_text_range(tokens)
+    } else {
+        tokens[range.end - 1].range.clone()
+    }
 }
 
 fn find_referenced_identifiers(
